@@ -236,12 +236,15 @@ MODEL_UNREADABLE = ('missing', 'trunc_gz', 'nofasta')
 
 
 def _execute(ctx, kspec, paths, refmaker, mode, workers, policy, script, starve, seam_specs, pool_faults,
-             interrupt_at, progress, machine, info=None, interleave=False, quantum=200, cancel_at=None, defer_callbacks=False):
+             interrupt_at, progress, machine, info=None, interleave=False, quantum=200, cancel_at=None, defer_callbacks=False, relative=False):
 	"""One execution of calc_file_signatures under the simulator. Returns nothing; raises Violation."""
 	from gambit.seq import SequenceFile
 	from gambit.sigs.calc import calc_file_signatures
 	n = len(paths)
-	files = [SequenceFile(p, 'fasta', 'auto') for p in paths]
+	# relative: the files are named relative to the working directory (the run's scratch directory) - a worker that
+	# makes paths absolute must do it the way the OS resolves them
+	pre = ctx.scratch.rstrip(os.sep) + os.sep
+	files = [SequenceFile(p[len(pre):] if relative and p.startswith(pre) else p, 'fasta', 'auto') for p in paths]      # textual: no '..' is collapsed
 	# reference outcomes under the permanent part of the plan
 	refs = []
 	for i, p in enumerate(paths):
@@ -276,8 +279,11 @@ def _execute(ctx, kspec, paths, refmaker, mode, workers, policy, script, starve,
 	pf0 = ctx.faults['worker_death'] + ctx.faults['interrupt'] + ctx.faults['result_unpicklable'] + ctx.faults['owner_cancelled_queued_tasks']
 	sx.activate(sim)
 	iosim.activate(plan)
+	old_cwd = os.getcwd()
 	try:
 		try:
+			if relative:
+				os.chdir(ctx.scratch)
 			res = calc_file_signatures(kspec, files, **kw)
 			outcome = ('ret', res)
 		except HarnessError:
@@ -285,6 +291,7 @@ def _execute(ctx, kspec, paths, refmaker, mode, workers, policy, script, starve,
 		except BaseException as e:
 			outcome = ('raised', e)
 	finally:
+		os.chdir(old_cwd)
 		iosim.deactivate()
 		sx.deactivate()
 	ctx.stats['executions'] += 1
@@ -425,6 +432,7 @@ def scenario(ctx):
 		quantum = ch.pick([60, 12, 500], L + '.quantum') if interleave else 200
 		cancel_at = ch.int(1, max(1, n), L + '.cancel_at') if (n and mode.startswith('exec') and ch.flip(0.08, L + '.cancel')) else None
 		defer = mode != 'seq' and ch.flip(0.5, L + '.defer_callbacks')
+		relative = ch.flip(0.3, L + '.relative_paths')
 		_execute(ctx, kspec, paths, refmaker, mode, workers, policy, None, starve, specs, pool_faults,
-		         interrupt_at, progress, machine, info, interleave, quantum, cancel_at, defer)
+		         interrupt_at, progress, machine, info, interleave, quantum, cancel_at, defer, relative)
 	ctx.sample = dict(kind='sampled', n=n, executions=n_exec)
